@@ -12,6 +12,7 @@ import (
 	"bufio"
 	"fmt"
 	"os"
+	"runtime"
 	"runtime/debug"
 	"strings"
 	"time"
@@ -44,11 +45,24 @@ func call(h handler, args []string) (reply string) {
 		}()
 		done <- h(args)
 	}()
-	select {
-	case r := <-done:
-		return r
-	case <-time.After(watchdog):
-		return "hang"
+	// an operation that allocates without end (a retry loop that makes a new table each round) is cut off long before the
+	// machine runs out of memory: it is reported like an operation that never returns
+	mem := time.NewTicker(50 * time.Millisecond)
+	defer mem.Stop()
+	limit := time.After(watchdog)
+	for {
+		select {
+		case r := <-done:
+			return r
+		case <-limit:
+			return "hang"
+		case <-mem.C:
+			var ms runtime.MemStats
+			runtime.ReadMemStats(&ms)
+			if ms.Sys > 6<<30 {
+				return "hang"
+			}
+		}
 	}
 }
 
